@@ -10,6 +10,7 @@ import (
 	"sort"
 	"strings"
 	"sync"
+	"sync/atomic"
 	"syscall"
 	"time"
 
@@ -20,6 +21,8 @@ import (
 	"github.com/Eyevinn/mp4ff/hevc"
 	"github.com/Eyevinn/mp4ff/sei"
 
+	"verif/internal/drv"
+	"verif/internal/ref/boxwalk"
 	"verif/internal/ref/ebspref"
 	"verif/internal/vf"
 )
@@ -1068,10 +1071,10 @@ func runC16(c *vf.Ctx) {
 	if next < len(jobs) {
 		c.Cap(fmt.Sprintf("time budget: %d of %d jobs explored", next, len(jobs)))
 	}
+	c16ToolPhase(c, seeds, thorough)
 	c.Set("jobs", len(jobs))
 	c.Sample(map[string]interface{}{"job": jobs[0].Name, "targets": len(targets)})
 	c.Sample(map[string]interface{}{"job": jobs[len(jobs)-1].Name})
-	c.Assume("cmd/mp4ff-nallister and cmd/mp4ff-pslister are not driven (their parsing is done by the helpers above)")
 	c.Assume("inputs beyond ring 1 of the seeds and beyond the short-string bound are not explored")
 }
 
@@ -1108,4 +1111,158 @@ func C16One(target, hx string) {
 			fmt.Println("returned")
 		}
 	}
+}
+
+// ---------- the two command-line listers (their own run functions through overlay drivers)
+
+type c16ToolCall struct {
+	Tool string // "mp4ff-nallister" or "mp4ff-pslister"
+	Op   string
+	Opts string // NUL-separated options
+	Name string // file name (pslister decides by extension)
+}
+
+func c16ToolCalls(kind string) []c16ToolCall {
+	nul := func(a ...string) string { return strings.Join(a, "\x00") }
+	if kind == "stream" {
+		return []c16ToolCall{
+			{"mp4ff-nallister", "nal", nul("-annexb", "-c", "avc", "-sei", "2", "-ps", "-raw", "4"), ""},
+			{"mp4ff-nallister", "nal", nul("-annexb", "-c", "hevc", "-sei", "1", "-ps"), ""},
+			{"mp4ff-pslister", "ps", nul("-c", "avc", "-v"), "in.264"},
+			{"mp4ff-pslister", "ps", nul("-c", "hevc", "-v"), "in.265"},
+		}
+	}
+	return []c16ToolCall{
+		{"mp4ff-nallister", "nal", nul("-c", "avc", "-sei", "2", "-ps", "-raw", "4"), ""},
+		{"mp4ff-nallister", "nal", nul("-c", "hevc", "-sei", "1", "-ps"), ""},
+		{"mp4ff-pslister", "ps", nul("-c", "avc", "-v"), "in.mp4"},
+		{"mp4ff-pslister", "ps", nul("-c", "hevc", "-v"), "in.mp4"},
+	}
+}
+
+type c16Tools struct{ nal, ps *drv.Proc }
+
+func (t *c16Tools) close() { t.nal.Close(); t.ps.Close() }
+
+// c16CallTool runs one input through one tool invocation with a watchdog. Returns "" or a failure signature.
+func c16CallTool(t *c16Tools, tc c16ToolCall, x []byte, limit time.Duration) (sig, extra string, dead bool) {
+	type res struct {
+		r   [][]byte
+		err error
+	}
+	ch := make(chan res, 1)
+	go func() {
+		var r [][]byte
+		var err error
+		if tc.Op == "nal" {
+			r, err = t.nal.Call("nal", []byte(tc.Opts), x)
+		} else {
+			r, err = t.ps.Call("ps", []byte(tc.Opts), []byte(tc.Name), x)
+		}
+		ch <- res{r, err}
+	}()
+	select {
+	case v := <-ch:
+		if v.err != nil {
+			return tc.Tool + " died", v.err.Error(), true
+		}
+		if len(v.r) > 0 && string(v.r[0]) == "PANIC" {
+			return tc.Tool + " panic " + vf.PanicClass(string(v.r[1])) + " " + string(v.r[2]), string(v.r[1]), false
+		}
+		return "", "", false
+	case <-time.After(limit):
+		return tc.Tool + " hang", "no answer within " + limit.String(), true
+	}
+}
+
+func c16ToolPhase(c *vf.Ctx, seeds []c16Seed, thorough bool) {
+	type input struct {
+		kind, name string
+		x          []byte
+	}
+	// inputs: every Annex B stream seed and every NAL seed behind a start code, with their single deviations
+	// (quick: streams only and every 3rd deviation of the NAL seeds' base forms); two small fragmented files
+	// (AVC, HEVC) with all single deviations inside their sample data and parameter-set records
+	var bases []input
+	for _, s := range seeds {
+		switch {
+		case s.Kind == "stream":
+			bases = append(bases, input{"stream", s.Name, s.Bytes})
+		case s.Kind == "nal" && strings.HasSuffix(s.Name, " base"):
+			bases = append(bases, input{"stream", "start code + " + s.Name, append([]byte{0, 0, 0, 1}, s.Bytes...)})
+		}
+	}
+	for _, codec := range []string{"avc", "hevc"} {
+		cs := &c06Case{Codec: codec, Scheme: "cenc", IV: c06IVs[0], Key: c06Keys[0], Frags: [][][]c06Nal{{{{VCL: false, Size: 12}, {VCL: true, Size: 40}}, {{VCL: true, Size: 30, Var: 1}}}}}
+		if f, ok := c06Build(cs); ok {
+			bases = append(bases, input{"mp4", "fragmented " + codec + " file", f.All()})
+		}
+	}
+	nw := 16
+	pool := make(chan *c16Tools, nw)
+	for i := 0; i < nw; i++ {
+		pool <- &c16Tools{drv.Start("mp4ff-nallister"), drv.Start("mp4ff-pslister")}
+	}
+	var calls, inputs atomic.Int64
+	c.Parallel(len(bases), func(i int) {
+		b := bases[i]
+		t := <-pool
+		defer func() { pool <- t }()
+		tcs := c16ToolCalls(b.kind)
+		// for mp4 inputs only elementary-stream bytes are varied (mdat payloads and the avcC/hvcC records), and only
+		// by length-preserving deviations: the container around them is C04's subject, not this property's
+		regions := [][2]int{{0, len(b.x)}}
+		if b.kind == "mp4" {
+			regions = nil
+			if top, err := boxwalk.WalkAll(b.x); err == nil {
+				boxwalk.Flatten(top, "", func(path string, bx *boxwalk.Box) {
+					if bx.Type == "mdat" || bx.Type == "avcC" || bx.Type == "hvcC" {
+						regions = append(regions, [2]int{bx.Start + bx.HdrLen, bx.End()})
+					}
+				})
+			}
+		}
+		for _, rg := range regions {
+			rg := rg
+			c16Deviations(c16Seed{Name: b.name, Kind: "raw", Bytes: b.x[rg[0]:rg[1]]}, thorough, func(desc string, xr []byte) {
+				if b.kind == "mp4" && len(xr) != rg[1]-rg[0] {
+					return
+				}
+				if c.Expired() {
+					return
+				}
+				inputs.Add(1)
+				y := append(append(append([]byte{}, b.x[:rg[0]]...), xr...), b.x[rg[1]:]...)
+				if rg[0] > 0 {
+					desc = fmt.Sprintf("%s (inside bytes %d..%d)", desc, rg[0], rg[1])
+				}
+				for _, tc := range tcs {
+					calls.Add(1)
+					sig, extra, dead := c16CallTool(t, tc, y, 30*time.Second)
+					if dead {
+						// confirm in a fresh driver with a longer limit before reporting (a stalled machine is not a hang)
+						t.close()
+						t = &c16Tools{drv.Start("mp4ff-nallister"), drv.Start("mp4ff-pslister")}
+						sig, extra, dead = c16CallTool(t, tc, y, 90*time.Second)
+						if dead {
+							t.close()
+							t = &c16Tools{drv.Start("mp4ff-nallister"), drv.Start("mp4ff-pslister")}
+						}
+					}
+					if sig != "" {
+						c.Fail(sig, "the command-line listers return an error on bad input: no panic, no hang", map[string]interface{}{"tool": tc.Tool, "options": strings.ReplaceAll(tc.Opts, "\x00", " "), "file_name": tc.Name, "deviation": desc, "seed_name": b.name, "input_hex": vf.Hex(clipN(y, 1<<16)), "extra": extra})
+					}
+				}
+			})
+		}
+	})
+	for i := 0; i < nw; i++ {
+		(<-pool).close()
+	}
+	c.Evals.Add(calls.Load())
+	c.Transitions.Add(calls.Load())
+	c.States.Add(inputs.Load())
+	c.DistinctN.Add(inputs.Load())
+	c.Set("tool_inputs", inputs.Load())
+	c.Set("tool_calls", calls.Load())
 }
